@@ -178,6 +178,17 @@ def r2_merge(chk, repo):
         okm = norm(lc.generators[0].iter) == CH and norm(lc.elt) == f"{norm(lc.generators[0].target)}.data"
     resorted = [st for st in walk_body(mg.node) if isinstance(st, ast.Assign) and norm(st.targets[0]) == CH and "sorted(" in norm(st.value)] + [st for st in walk_body(mg.node) if isinstance(st, ast.Expr) and norm(st.value).startswith(f"{CH}.sort(")]
     chk.check(okm and not resorted, "C08.R2", mg, resorted[0] if resorted else (stmt_of(ma[0]) if ma else None), "Chunk.merge does not merge the data arrays in the order the chunks were given (depends_on order): on a shared field name another dependency's values win", site_text="Chunk.merge: merge_arrs([c.data for c in chunks]) in the given order", site={"function": mg.qualname, "rule": "merge order"})
+    # every inlined plugin gets the merge of *its own* dependencies of a kind (not a merge cached under the kind)
+    psp0 = repo.func("ParallelSourcePlugin.do_compute", PSP)
+    kl = [n for n in walk_body(psp0.node) if isinstance(n, ast.For) and "dependencies_by_kind().items()" in norm(n.iter) and isinstance(n.target, ast.Tuple) and len(n.target.elts) == 2]
+    okp = False
+    for lp in kl:
+        KIND, DS = norm(lp.target.elts[0]), norm(lp.target.elts[1])
+        for st in lp.body:
+            if isinstance(st, ast.Assign) and isinstance(st.targets[0], ast.Subscript) and norm(st.targets[0].slice) == KIND:
+                v = st.value
+                okp = isinstance(v, ast.Call) and (call_name(v) or "").endswith("Chunk.merge") and v.args and isinstance(v.args[0], ast.ListComp) and norm(v.args[0].generators[0].iter) == DS
+    chk.check(okp, "C08.R2", psp0, kl[0] if kl else None, "an inlined plugin's input of a kind is not `Chunk.merge` over its own dependencies of that kind (e.g. a merge cached per kind from another plugin): plugins with different dependencies of the same kind are handed the wrong rows", site_text="ParallelSourcePlugin.do_compute: compute_kwargs[kind] = Chunk.merge([results[d] for d in d_of_kind])", site={"function": psp0.qualname, "rule": "own dependencies merged"})
     gk = repo.func("group_by_kind", "strax/utils.py")
     loops = [n for n in walk_body(gk.node) if isinstance(n, ast.For) and norm(n.iter) == gk.params[0]]
     okg = False
@@ -265,6 +276,8 @@ def r4_pacemaker(chk, repo):
 
 
 WITNESSES = [
+    W("merged input cached per kind across inlined plugins", "C08.R2", PSP,
+      "compute_kwargs[kind] = strax.Chunk.merge([results[d] for d in d_of_kind])", "compute_kwargs[kind] = results.setdefault(\"_merged_\" + kind, strax.Chunk.merge([results[d] for d in d_of_kind]))"),
     W("group_by_kind groups only neighbours", "C08.R2", "strax/utils.py",
       "deps_by_kind: ty.Dict = dict()\n    for d in dtypes:\n        p = plugins[d]\n        k = p.data_kind_for(d)\n        deps_by_kind.setdefault(k, [])\n        deps_by_kind[k].append(d)\n\n    return deps_by_kind",
       "return {kind: list(ds) for kind, ds in itertools.groupby(dtypes, key=lambda d: plugins[d].data_kind_for(d))}"),
